@@ -6,6 +6,10 @@ props = [json.loads(l) for l in open(os.path.join(V, "properties.jsonl"))]
 
 EVAL_NOTE = "trusted: TLC; the renderer's canonical layout and path->line map; H2 hook events (emitted after each VM state change in the single evaluator goroutine); program families are bounded (sizes in the evidence)"
 CHECKS = {
+ "C19": dict(
+   technique="TLA+ structural codec spec (ZnJson: ToJson/FromJson with ordered members, round-trip and order invariants) model-checked by TLC; TLC-enumerated values replayed through 生成JSON/解析JSON with Python's json module as the independent reader/writer",
+   level="TLC enumerates 17014 top-level dictionaries (<=2 ordered members over 3 key atoms, values = 17 atoms incl. quote/backslash/control/astral/U+2028 texts and boundary doubles, or containers of <=1 atom) plus ~5000 seeded random depth-3 values, checking FromJson(ToJson(v)) = v and key order on the spec. For each value: the generated text must be read back by Python's strict json (order-preserving) as the same structure; Python-encoded documents in 4 styles must parse to the value with keys in document order; the composition must give the value (compared structurally and by 为); single-character corruptions (quick ~4000) and non-finite numbers must raise an exception that a 拦截异常 handler catches.",
+   note="trusted: TLC; Python's json module as the reference codec and arbiter of well-formedness; atoms are fixed representatives", ref="5 C19"),
  "C12": dict(
    technique="TLA+ sequential ADT spec (ZnColl) open-client model checking; TLC-generated operation histories replayed as Zn programs; TLC trace validation (Trace_ZnColl) of operation logs recorded from value.Array/value.HashMap",
    level="TLC enumerates every history of 3 list operations (14 operations x arguments from 5 start lists, 841k) and 3 (thorough: 4) dictionary operations (8 operations, 4 start dictionaries); a TLC-seeded 1/20 resp. 1/3 of them (all in the thorough tier) become one Zn program each that displays reply, collection, length, text form / 所有索引 / 所有值 / generated JSON after every step and iterates at the end; laws and invariants are checked to length 8 with a VIEW. Random histories of 500-2000 operations over 9 values and 8 keys are recorded from the real value types and validated by TLC line by line (action, reply, full projected state, consistent 寻找 base).",
